@@ -223,6 +223,7 @@ class Run:
         self.table = None
         self.fasta_exists = None
         self.step_capped = False
+        self.unit_peptides = {}    # 'kind|tx|uid' -> peptide sequences the unit returned
 
 
 DEFAULT_CONFIG = {
@@ -354,6 +355,7 @@ class Seams:
                 if f is None and not count_units:
                     r = orig(*a, **k)
                     run.units.append((kind, run.current_tx, uid, None, len(r[0])))
+                    run.unit_peptides[key] = sorted(str(x) for x in r[0])
                     return r
                 kfire = f['k'] if f else None
                 if f is not None and kfire == 0:
@@ -383,6 +385,7 @@ class Seams:
                 if st['fired']:
                     run.fault_absorbed.append(key)
                 run.units.append((kind, run.current_tx, uid, st['n'], len(r[0])))
+                run.unit_peptides[key] = sorted(str(x) for x in r[0])
                 return r
             return unit
         for n in UNITS:
@@ -511,6 +514,20 @@ def build_index_dir(ref, out_dir, config, force=False, symlink=False):
         output_dir=Path(out_dir), gtf_symlink=symlink, force=force, quiet=True, debug_level=1)
     with contextlib.redirect_stdout(io.StringIO()):
         _gen_index_mod.generate_index(args)
+
+
+def update_index_dir(index_dir, config, force=False):
+    """Real ``updateIndex`` invocation (adds the canonical pool for ``config`` to an existing directory)."""
+    import moPepGen.cli.update_index  # noqa  pylint: disable=import-outside-toplevel
+    ui = sys.modules['moPepGen.cli.update_index']
+    c = dict(DEFAULT_CONFIG)
+    c.update(config)
+    args = argparse.Namespace(
+        command='updateIndex', index_dir=Path(index_dir), force=force, cleavage_rule=c['cleavage_rule'],
+        cleavage_exception=c['cleavage_exception'], miscleavage=str(c['miscleavage']), min_mw=str(c['min_mw']),
+        min_length=c['min_length'], max_length=c['max_length'], quiet=True, debug_level=1)
+    with contextlib.redirect_stdout(io.StringIO()):
+        ui.update_index(args)
 
 
 def write_reference(texts, workdir):
